@@ -245,8 +245,14 @@ def handle (j : Json) : R Json := do
       && genes.all (fun g => genes.all fun h => g.id == h.id || g.loc != h.loc)
       && areas.all (fun a => kidsInside a && kindsWF a && (nodes a).all fun n => locOK len n.loc && locOK len n.core)
       && idsConsistent (areas ++ extra)
-    return jObj [("model", eJson (obsOf extra ops) (run len ops)),
-                 ("model2", eJson (obsOf extra ops) (run len ops2)),
+    let isOk := fun (x : E Rec) => match x with | .ok _ => true | .error _ => false
+    let replay := specDefsAfter ops
+    let protoNodes := (allNodes extra ops).filter fun a => a.kind == .proto || a.kind == .sideProto
+    return jObj [("model", eJson (obsOf extra ops) (runLoose len ops)),
+                 ("model2", eJson (obsOf extra ops) (runLoose len ops2)),
+                 ("strict", toJson (isOk (run len ops) || !isOk (runLoose len ops))),
+                 ("defs_replay", jArr (protoNodes.map fun a => jArr [toJson a.id,
+                    jNats (sortNats ((replay.filter fun x => x.1 == a.id).map (·.2)))])),
                  ("spec", specObs extra ops),
                  ("log_ok", toJson (checkLog ops implLog)),
                  ("ann", jArr (← (← arrF j "ops").filterMapM fun o => do
